@@ -2,6 +2,7 @@ package main
 
 import (
 	"fmt"
+	"strconv"
 	"go/types"
 	"os"
 	"sort"
@@ -68,7 +69,7 @@ func (fr *FnRun) checkCallSite(st *State, site ssa.Instruction, c *ssa.CallCommo
 	}
 	desc := fr.siteDesc(c)
 	for _, sp := range fr.ctr.Sites {
-		if !strings.Contains(desc, sp.Pattern) {
+		if !fr.siteMatches(sp, site) {
 			continue
 		}
 		vars := map[string]Val{}
@@ -93,22 +94,51 @@ func (fr *FnRun) checkCallSite(st *State, site ssa.Instruction, c *ssa.CallCommo
 	}
 }
 
+// matchingSites lists the calls of the function a callsite spec applies to, in source order.  A
+// pattern `text#n` selects the n-th (1-based) call whose description contains text.
+func (fr *FnRun) matchingSites(sp *CallSiteSpec) []ssa.Instruction {
+	pat, nth := sp.Pattern, 0
+	if i := strings.LastIndex(pat, "#"); i >= 0 {
+		if n, err := strconv.Atoi(pat[i+1:]); err == nil {
+			pat, nth = pat[:i], n
+		}
+	}
+	var all []ssa.Instruction
+	for _, b := range fr.fn.Blocks {
+		for _, in := range b.Instrs {
+			if ci, ok := in.(ssa.CallInstruction); ok {
+				if d := fr.siteDesc(ci.Common()); d == pat || strings.HasSuffix(d, pat) {
+					all = append(all, in)
+				}
+			}
+		}
+	}
+	sort.SliceStable(all, func(i, j int) bool { return all[i].Pos() < all[j].Pos() })
+	if nth > 0 {
+		if nth <= len(all) {
+			return all[nth-1 : nth]
+		}
+		return nil
+	}
+	return all
+}
+
+func (fr *FnRun) siteMatches(sp *CallSiteSpec, site ssa.Instruction) bool {
+	for _, in := range fr.matchingSites(sp) {
+		if in == site {
+			return true
+		}
+	}
+	return false
+}
+
 // checkSitesExist: every callsite spec must match at least one call of the function.
 func (fr *FnRun) checkSitesExist(st *State) {
 	if fr.ctr == nil {
 		return
 	}
 	for _, sp := range fr.ctr.Sites {
-		found := false
-		for _, b := range fr.fn.Blocks {
-			for _, in := range b.Instrs {
-				if ci, ok := in.(ssa.CallInstruction); ok {
-					if strings.Contains(fr.siteDesc(ci.Common()), sp.Pattern) {
-						found = true
-					}
-				}
-			}
-		}
+		found := len(fr.matchingSites(sp)) > 0
 		if found {
 			fr.oblige(st, "site-exists", sp.Pattern, tTrue, nil, "a call matching "+sp.Pattern+" exists")
 		} else {
